@@ -44,7 +44,7 @@ impl<'n> TryFromNode<'n> for ComplexProps {
                 result = read_complex_content_node(element_name, n, doc)?;
             }
 
-            if n.tag_name().name() == "sequence" {
+            if matches!(n.tag_name().name(), "sequence" | "choice") {
                 result = read_sequence_node(element_name, n, doc)?;
             }
 
